@@ -1,10 +1,12 @@
 (* C16 — Routing-cost providers return exactly the supplied data.
    Only the property theorems, statements written out in full, each closed by `exact`.
    Model: Model/Routing.v (rational data, see its header for the Rust items), lemmas: Proofs/RoutingP.v.
+   Second part (documents -> provider answers, TravelTime, the real binary search loop, approximation):
+   Model/RoutingDoc.v, lemmas Proofs/RoutingDocP.v.
    `consistent` is the declarative predicate defined in Proofs/RoutingP.v (natural consistency with n*n lengths);
    since repair 17fc8e9 (finding C16-F1) it is what the code enforces. *)
-From VRP Require Import Base.Tac Model.Routing Proofs.RoutingP.
-From Coq Require Import QArith Permutation.
+From VRP Require Import Base.Tac Model.Routing Proofs.RoutingP Model.RoutingDoc Proofs.RoutingDocP.
+From Coq Require Import QArith Permutation Sorted.
 Open Scope Z_scope.
 
 (* ---- clause 1: matrix-backed routing returns exactly the supplied entry, durations * scale, distances unscaled,
@@ -210,3 +212,369 @@ Theorem C16_nonvacuous_aware :
     nth_error (m_dur r) (0 * psize prov + 1) = Some (50 # 1)%Q /\
     exists d, duration prov no_fallback (m_index l) 1%Q 0 1 t = Val d /\ (d == 15 # 1)%Q.
 Proof. exact nonvacuous_aware. Qed.
+
+(* ====================================================================================================================
+   SECOND PART: from pragmatic DOCUMENTS to provider answers (Model/RoutingDoc.v).
+   doc_read d = validation (E1500..E1505) -> read_fleet (Profile{index, scale} per vehicle) -> create_transport_costs.
+   ==================================================================================================================== *)
+
+(* ---- clause 3, the other direction: every consistent set is accepted, hence "rejected exactly when inconsistent" *)
+Theorem C16_consistent_accepted : forall M,
+  M <> [] ->
+  (exists n, forall m, In m M -> length (m_dur m) = (n * n)%nat /\ length (m_dist m) = (n * n)%nat) ->
+  (((forall m, In m M -> m_ts m = None) /\ Permutation (map m_index M) (seq 0 (length M)))
+   \/ ((forall m, In m M -> m_ts m <> None) /\ (forall m, In m M -> length (group_raw M (m_index m)) <> 1%nat))) ->
+  exists p, build M = Ok p.
+Proof. exact consistent_accepted_unfolded. Qed.
+
+Theorem C16_accepted_iff_consistent : forall M, (exists p, build M = Ok p) <-> consistent M.
+Proof. exact accepted_iff_consistent. Qed.
+
+(* ---- the provider does not depend on the order in which the matrices are supplied (the builder sorts by profile index /
+        by truncated timestamp); distinct truncated stamps per profile as in the time-aware theorems *)
+Theorem C16_provider_permutation_invariant : forall M M' p,
+  Permutation M M' -> build M = Ok p ->
+  (forall k, NoDup (map ts_key (group_raw M k))) ->
+  exists p', build M' = Ok p' /\ psize p' = psize p /\
+    forall fb k scale from to t,
+      duration p' fb k scale from to t = duration p fb k scale from to t /\
+      distance p' fb k from to t = distance p fb k from to t.
+Proof. exact provider_perm_invariant. Qed.
+
+(* ---- the binary search: the loop of core::slice::binary_search_by (std_bsearch) returns, on EVERY strictly increasing
+        list, what the contract model used in the provider returns; the stamp vector of a profile is such a list *)
+Theorem C16_binary_search_refines : forall l x, StronglySorted Z.lt l -> std_bsearch l x = bsearch l x.
+Proof. exact std_bsearch_refines. Qed.
+
+Theorem C16_profile_stamps_strictly_increasing : forall g : list matrix,
+  NoDup (map ts_key g) -> StronglySorted Z.lt (map ts_key (sort_by ts_key g)).
+Proof. exact sorted_keys_strict. Qed.
+
+Theorem C16_aware_lookup_with_std_search : forall (g : list matrix) (t : Q), NoDup (map ts_key g) ->
+  std_bsearch (map ts_key (sort_by ts_key g)) (ztrunc t) = bsearch (map ts_key (sort_by ts_key g)) (ztrunc t).
+Proof. exact aware_lookup_with_std_search. Qed.
+
+(* ---- TravelTime: Arrival(t) and Departure(t) are looked up at the same time t (an arrival-based lookup does NOT go back
+        by the travel duration) *)
+Theorem C16_travel_time_variant_irrelevant : forall pr fb p scale from to t,
+  duration_tt pr fb p scale from to (TArrival t) = duration_tt pr fb p scale from to (TDeparture t) /\
+  distance_tt pr fb p from to (TArrival t) = distance_tt pr fb p from to (TDeparture t) /\
+  duration_tt pr fb p scale from to (TArrival t) = duration pr fb p scale from to t.
+Proof. exact travel_time_variant_irrelevant. Qed.
+
+(* ---- interpolation is monotone in the query time between two stamps (direction given by the two values) *)
+Theorem C16_interpolation_monotone : forall t1 t2 tl tr lv rv, (tl < tr)%Q -> (t1 <= t2)%Q ->
+  ((lv <= rv)%Q -> (lv + (t1 - tl) / (tr - tl) * (rv - lv) <= lv + (t2 - tl) / (tr - tl) * (rv - lv))%Q) /\
+  ((rv <= lv)%Q -> (lv + (t2 - tl) / (tr - tl) * (rv - lv) <= lv + (t1 - tl) / (tr - tl) * (rv - lv))%Q).
+Proof. exact interp_monotone. Qed.
+
+(* ---- clause 1 on documents: for EVERY vehicle v of an accepted document with untimed matrices and every matrix pm whose
+        profile name equals v's profile name: the provider answers with pm's entry (duration times v's scale, default 1;
+        distance unscaled), for both TravelTime variants; v's Profile is (index of the name, that scale) *)
+Theorem C16_doc_vehicle_exact : forall d prov vs v pm du di from to tt x w,
+  doc_read d = DOk prov vs ->
+  (forall m, In m (d_matrices d) -> pm_ts m = None) ->
+  In v (d_vehicles d) -> In pm (d_matrices d) -> pm_profile pm = Some (dv_profile v) ->
+  pm_data2 pm = inr (du, di) ->
+  nth_error du (from * psize prov + to) = Some x ->
+  nth_error di (from * psize prov + to) = Some w ->
+  exists k, vehicle_profile (prof_names d) (dv_profile v) (dv_scale v)
+              = Some (k, match dv_scale v with Some s => s | None => 1%Q end) /\
+            In (Some (k, dscale v)) vs /\
+            duration_tt prov (doc_fallback d) k (dscale v) from to tt = Val (x * dscale v)%Q /\
+            distance_tt prov (doc_fallback d) k from to tt = Val w.
+Proof. exact doc_named_exact. Qed.
+
+(* ... and it is THE matrix of that name: when every matrix name is a fleet profile, each fleet profile has a matrix and
+   no two positions of the matrix list carry the same name *)
+Theorem C16_doc_named_unique : forall d prov vs nm,
+  doc_read d = DOk prov vs ->
+  (forall m, In m (d_matrices d) -> pm_ts m = None) ->
+  (forall pm, In pm (d_matrices d) -> exists nm, pm_profile pm = Some nm /\ In nm (prof_names d)) ->
+  In nm (prof_names d) ->
+  (exists pm, In pm (d_matrices d) /\ pm_profile pm = Some nm) /\
+  (forall i j pm1 pm2, nth_error (d_matrices d) i = Some pm1 -> nth_error (d_matrices d) j = Some pm2 ->
+                       pm_profile pm1 = Some nm -> pm_profile pm2 = Some nm -> i = j).
+Proof. exact doc_named_unique. Qed.
+
+(* matrices without profile names: the k-th fleet profile is served by the k-th matrix *)
+Theorem C16_doc_positional_exact : forall d prov vs v pm k du di from to tt x w,
+  doc_read d = DOk prov vs ->
+  (forall m, In m (d_matrices d) -> pm_profile m = None) ->
+  In v (d_vehicles d) ->
+  index_of (dv_profile v) (profile_names (prof_names d)) = Some k ->
+  nth_error (d_matrices d) k = Some pm ->
+  pm_data2 pm = inr (du, di) ->
+  nth_error du (from * psize prov + to) = Some x ->
+  nth_error di (from * psize prov + to) = Some w ->
+  vehicle_profile (prof_names d) (dv_profile v) (dv_scale v) = Some (k, dscale v) /\
+  duration_tt prov (doc_fallback d) k (dscale v) from to tt = Val (x * dscale v)%Q /\
+  distance_tt prov (doc_fallback d) k from to tt = Val w.
+Proof. exact doc_positional_exact. Qed.
+
+(* the data of a matrix: without errorCodes the supplied numbers; with errorCodes -1 where the code is positive, the
+   supplied numbers elsewhere; the code list covers all distances (f7d2f27) *)
+Theorem C16_doc_matrix_data : forall pm du di, pm_data2 pm = inr (du, di) ->
+  (pm_err pm = None -> forall k, nth_error du k = option_map inject_Z (nth_error (pm_times pm) k) /\
+                                 nth_error di k = option_map inject_Z (nth_error (pm_dists pm) k)) /\
+  (forall codes, pm_err pm = Some codes ->
+     (length (pm_dists pm) <= length codes)%nat /\ length du = length codes /\ length di = length codes /\
+     forall k e, nth_error codes k = Some e ->
+       (e > 0 -> nth_error du k = Some (-1 # 1)%Q /\ nth_error di k = Some (-1 # 1)%Q) /\
+       (e <= 0 -> exists tv dv, nth_error (pm_times pm) k = Some tv /\ nth_error (pm_dists pm) k = Some dv /\
+                                nth_error du k = Some (inject_Z tv) /\ nth_error di k = Some (inject_Z dv))).
+Proof. exact doc_matrix_data. Qed.
+
+(* ---- clause 4 on documents (untimed): an entry flagged unreachable surfaces as a negative duration and a negative
+        distance for every vehicle of that profile (positive scale), for both TravelTime variants *)
+Theorem C16_doc_unreachable_negative : forall d prov vs v pm codes du di from to tt e,
+  doc_read d = DOk prov vs ->
+  (forall m, In m (d_matrices d) -> pm_ts m = None) ->
+  In v (d_vehicles d) -> In pm (d_matrices d) -> pm_profile pm = Some (dv_profile v) ->
+  pm_err pm = Some codes -> pm_data2 pm = inr (du, di) ->
+  nth_error codes (from * psize prov + to) = Some e -> e > 0 -> (0 < dscale v)%Q ->
+  exists k q w, vehicle_profile (prof_names d) (dv_profile v) (dv_scale v) = Some (k, dscale v) /\
+    duration_tt prov (doc_fallback d) k (dscale v) from to tt = Val q /\ (q < 0)%Q /\
+    distance_tt prov (doc_fallback d) k from to tt = Val w /\ (w < 0)%Q.
+Proof. exact doc_unreachable_negative. Qed.
+
+(* ---- clause 2 on documents (timestamps are whole seconds; pm_key = the stamp after `as u64`).  names_known: every
+        matrix name is a fleet profile (otherwise the positional fall-back mixes groups, finding C16-F3) *)
+Theorem C16_doc_timed_at_timestamp : forall d prov vs v,
+  doc_read d = DOk prov vs -> names_known d -> In v (d_vehicles d) ->
+  NoDup (map pm_key (filter (pnamed (dv_profile v)) (d_matrices d))) ->
+  forall pm ts du di from to tt x w,
+    In pm (d_matrices d) -> pm_profile pm = Some (dv_profile v) -> pm_ts pm = Some ts ->
+    ztrunc (tt_time tt) = pm_key pm ->
+    pm_data2 pm = inr (du, di) ->
+    nth_error du (from * psize prov + to) = Some x -> nth_error di (from * psize prov + to) = Some w ->
+    exists k, vehicle_profile (prof_names d) (dv_profile v) (dv_scale v) = Some (k, dscale v) /\
+              duration_tt prov (doc_fallback d) k (dscale v) from to tt = Val (x * dscale v)%Q /\
+              distance_tt prov (doc_fallback d) k from to tt = Val w.
+Proof. exact doc_timed_at. Qed.
+
+Theorem C16_doc_timed_before_first : forall d prov vs v,
+  doc_read d = DOk prov vs -> names_known d -> In v (d_vehicles d) ->
+  NoDup (map pm_key (filter (pnamed (dv_profile v)) (d_matrices d))) ->
+  forall pm ts du di from to tt x w,
+    In pm (d_matrices d) -> pm_profile pm = Some (dv_profile v) -> pm_ts pm = Some ts ->
+    (forall y, In y (d_matrices d) -> pm_profile y = Some (dv_profile v) -> pm_key pm <= pm_key y) ->
+    ztrunc (tt_time tt) < pm_key pm ->
+    pm_data2 pm = inr (du, di) ->
+    nth_error du (from * psize prov + to) = Some x -> nth_error di (from * psize prov + to) = Some w ->
+    exists k, vehicle_profile (prof_names d) (dv_profile v) (dv_scale v) = Some (k, dscale v) /\
+              duration_tt prov (doc_fallback d) k (dscale v) from to tt = Val (x * dscale v)%Q /\
+              distance_tt prov (doc_fallback d) k from to tt = Val w.
+Proof. exact doc_timed_before_first. Qed.
+
+Theorem C16_doc_timed_after_last : forall d prov vs v,
+  doc_read d = DOk prov vs -> names_known d -> In v (d_vehicles d) ->
+  NoDup (map pm_key (filter (pnamed (dv_profile v)) (d_matrices d))) ->
+  forall pm ts du di from to tt x w,
+    In pm (d_matrices d) -> pm_profile pm = Some (dv_profile v) -> pm_ts pm = Some ts ->
+    (forall y, In y (d_matrices d) -> pm_profile y = Some (dv_profile v) -> pm_key y <= pm_key pm) ->
+    pm_key pm < ztrunc (tt_time tt) ->
+    pm_data2 pm = inr (du, di) ->
+    nth_error du (from * psize prov + to) = Some x -> nth_error di (from * psize prov + to) = Some w ->
+    exists k, vehicle_profile (prof_names d) (dv_profile v) (dv_scale v) = Some (k, dscale v) /\
+              duration_tt prov (doc_fallback d) k (dscale v) from to tt = Val (x * dscale v)%Q /\
+              distance_tt prov (doc_fallback d) k from to tt = Val w.
+Proof. exact doc_timed_after_last. Qed.
+
+Theorem C16_doc_timed_between : forall d prov vs v,
+  doc_read d = DOk prov vs -> names_known d -> In v (d_vehicles d) ->
+  NoDup (map pm_key (filter (pnamed (dv_profile v)) (d_matrices d))) ->
+  forall l r tl tr dul dil dur dir from to tt lv rv lw,
+    In l (d_matrices d) -> In r (d_matrices d) ->
+    pm_profile l = Some (dv_profile v) -> pm_profile r = Some (dv_profile v) ->
+    pm_ts l = Some tl -> pm_ts r = Some tr ->
+    pm_key l < ztrunc (tt_time tt) -> ztrunc (tt_time tt) < pm_key r ->
+    (forall y, In y (d_matrices d) -> pm_profile y = Some (dv_profile v) -> ~ (pm_key l < pm_key y /\ pm_key y < pm_key r)) ->
+    pm_data2 l = inr (dul, dil) -> pm_data2 r = inr (dur, dir) ->
+    nth_error dul (from * psize prov + to) = Some lv ->
+    nth_error dur (from * psize prov + to) = Some rv ->
+    nth_error dil (from * psize prov + to) = Some lw ->
+    exists k, vehicle_profile (prof_names d) (dv_profile v) (dv_scale v) = Some (k, dscale v) /\
+              duration_tt prov (doc_fallback d) k (dscale v) from to tt
+                = Val ((lv + (tt_time tt - inject_Z tl) / (inject_Z tr - inject_Z tl) * (rv - lv)) * dscale v)%Q /\
+              distance_tt prov (doc_fallback d) k from to tt = Val lw.
+Proof. exact doc_timed_between. Qed.
+
+(* ---- unreachable entries inside the interpolation: what the code returns, exactly *)
+(* the LEFT matrix flags the entry: distance = -1, duration = the interpolant from -1 towards the right value *)
+Theorem C16_doc_timed_unreachable_left_exact : forall d prov vs v l r tl tr codes dul dil dur dir from to tt rv e,
+  doc_read d = DOk prov vs -> names_known d -> In v (d_vehicles d) ->
+  NoDup (map pm_key (filter (pnamed (dv_profile v)) (d_matrices d))) ->
+  In l (d_matrices d) -> In r (d_matrices d) ->
+  pm_profile l = Some (dv_profile v) -> pm_profile r = Some (dv_profile v) ->
+  pm_ts l = Some tl -> pm_ts r = Some tr ->
+  pm_key l < ztrunc (tt_time tt) -> ztrunc (tt_time tt) < pm_key r ->
+  (forall y, In y (d_matrices d) -> pm_profile y = Some (dv_profile v) -> ~ (pm_key l < pm_key y /\ pm_key y < pm_key r)) ->
+  pm_err l = Some codes -> nth_error codes (from * psize prov + to) = Some e -> e > 0 ->
+  pm_data2 l = inr (dul, dil) -> pm_data2 r = inr (dur, dir) ->
+  nth_error dur (from * psize prov + to) = Some rv ->
+  exists k, vehicle_profile (prof_names d) (dv_profile v) (dv_scale v) = Some (k, dscale v) /\
+    duration_tt prov (doc_fallback d) k (dscale v) from to tt
+      = Val (((-1 # 1) + (tt_time tt - inject_Z tl) / (inject_Z tr - inject_Z tl) * (rv - (-1 # 1))) * dscale v)%Q /\
+    distance_tt prov (doc_fallback d) k from to tt = Val (-1 # 1)%Q.
+Proof. exact doc_timed_unreachable_left_exact. Qed.
+
+(* both bracketing matrices flag the entry: negative duration and distance *)
+Theorem C16_doc_timed_unreachable_both_negative : forall d prov vs v l r tl tr cl cr dul dil dur dir from to tt el er,
+  doc_read d = DOk prov vs -> names_known d -> In v (d_vehicles d) ->
+  NoDup (map pm_key (filter (pnamed (dv_profile v)) (d_matrices d))) ->
+  In l (d_matrices d) -> In r (d_matrices d) ->
+  pm_profile l = Some (dv_profile v) -> pm_profile r = Some (dv_profile v) ->
+  pm_ts l = Some tl -> pm_ts r = Some tr ->
+  pm_key l < ztrunc (tt_time tt) -> ztrunc (tt_time tt) < pm_key r ->
+  (forall y, In y (d_matrices d) -> pm_profile y = Some (dv_profile v) -> ~ (pm_key l < pm_key y /\ pm_key y < pm_key r)) ->
+  pm_err l = Some cl -> nth_error cl (from * psize prov + to) = Some el -> el > 0 ->
+  pm_err r = Some cr -> nth_error cr (from * psize prov + to) = Some er -> er > 0 ->
+  pm_data2 l = inr (dul, dil) -> pm_data2 r = inr (dur, dir) -> (0 < dscale v)%Q ->
+  exists k q, vehicle_profile (prof_names d) (dv_profile v) (dv_scale v) = Some (k, dscale v) /\
+    duration_tt prov (doc_fallback d) k (dscale v) from to tt = Val q /\ (q < 0)%Q /\
+    distance_tt prov (doc_fallback d) k from to tt = Val (-1 # 1)%Q.
+Proof. exact doc_timed_unreachable_both_negative. Qed.
+
+(* FINDING C16-F5.  "entries flagged unreachable surface as negative values" fails for time-dependent documents: the left
+   matrix (the one in force for distances, which are -1) flags (0,1), yet strictly between the two stamps the duration is
+   the interpolant towards the right value: stamps 10 / 18, right value 100, t = 14 gives 49.5 *)
+Theorem C16_doc_timed_unreachable_negative_refuted :
+  exists d prov vs l codes t q w,
+    doc_read d = DOk prov vs /\ In l (d_matrices d) /\ pm_err l = Some codes /\ nth_error codes (0 * psize prov + 1) = Some 1 /\
+    pm_ts l = Some 10 /\ (inject_Z 10 < t)%Q /\ (t < inject_Z 18)%Q /\
+    duration_tt prov (doc_fallback d) 0 1%Q 0 1 (TDeparture t) = Val q /\ (0 <= q)%Q /\
+    distance_tt prov (doc_fallback d) 0 0 1 (TDeparture t) = Val w /\ (w < 0)%Q.
+Proof. exact doc_timed_unreachable_negative_refuted. Qed.
+
+(* ---- rejection exactly when inconsistent, on documents.  doc_consistent (Proofs/RoutingDocP.v), written out here:
+        one side length n for travelTimes / distances / errorCodes of every matrix; the routing rules E1500..E1505;
+        matrices attached to the fleet profiles by position (no names, no timestamps, one per profile), or by name with the
+        names a permutation of the fleet profile names (untimed), or by name with >= 2 timestamped matrices per profile *)
+Theorem C16_doc_consistent_accepted : forall d n,
+  (forall pm, In pm (d_matrices d) ->
+     length (pm_times pm) = (n * n)%nat /\ length (pm_dists pm) = (n * n)%nat /\
+     (forall codes, pm_err pm = Some codes -> length codes = (n * n)%nat)) ->
+  (NoDup (prof_names d) /\ d_profiles d <> [] /\
+   (forall v, In v (d_vehicles d) -> In (dv_profile v) (prof_names d)) /\
+   ~ (ci_has_coords (d_locs d) = true /\ ci_has_indices (d_locs d) = true) /\
+   (ci_max_index (d_locs d) + 1 = n)%nat /\ (forall i, In (LRef i) (d_locs d) -> (i < n)%nat)) ->
+  (((forall pm, In pm (d_matrices d) -> pm_profile pm = None /\ pm_ts pm = None) /\
+    length (d_matrices d) = length (prof_names d))
+   \/ ((forall pm, In pm (d_matrices d) -> pm_ts pm = None) /\
+       Permutation (map pm_profile (d_matrices d)) (map Some (prof_names d)))
+   \/ ((forall pm, In pm (d_matrices d) -> pm_ts pm <> None /\ exists nm, pm_profile pm = Some nm /\ In nm (prof_names d)) /\
+       (forall nm, In nm (prof_names d) -> (2 <= length (filter (pnamed nm) (d_matrices d)))%nat))) ->
+  exists prov vs, doc_read d = DOk prov vs.
+Proof. exact doc_consistent_accepted_unfolded. Qed.
+
+(* the converse holds when the errorCodes / travelTimes lengths equal the distances length and every matrix name is a fleet
+   profile; _partial: without these two side conditions the converse is FALSE (the two witnesses below) *)
+Theorem C16_doc_accepted_consistent_partial : forall d prov vs,
+  doc_read d = DOk prov vs ->
+  (forall pm codes, In pm (d_matrices d) -> pm_err pm = Some codes ->
+     length codes = length (pm_dists pm) /\ length (pm_times pm) = length (pm_dists pm)) ->
+  (forall pm nm, In pm (d_matrices d) -> pm_profile pm = Some nm -> In nm (prof_names d)) ->
+  doc_consistent d.
+Proof. exact doc_accepted_consistent. Qed.
+
+(* FINDING C16-F3.  A matrix whose profile name is no fleet profile is attached by its POSITION: in position 1 it serves the
+   vehicles of fleet profile 2 (which has no matrix of its own); the same matrices in the other order are rejected *)
+Theorem C16_doc_unknown_name_by_position_refuted :
+  exists d d' prov vs v,
+    doc_read d = DOk prov vs /\ ~ names_known d /\ In v (d_vehicles d) /\
+    (forall pm, In pm (d_matrices d) -> pm_profile pm <> Some (dv_profile v)) /\
+    duration_tt prov (doc_fallback d) 1 (dscale v) 0 1 (TDeparture 0) = Val (31 # 1)%Q /\
+    Permutation (d_matrices d) (d_matrices d') /\ d_profiles d' = d_profiles d /\
+    doc_read d' = DRejected DProfileCount.
+Proof. exact doc_unknown_name_by_position_refuted. Qed.
+
+(* FINDING C16-F4.  errorCodes longer than the data, positive surplus up to the next square: a 2x2 matrix with 9 codes on
+   a document with 2 locations gives a provider of size 3; cell (1,0) (supplied: 12) answers 0, the supplied cell (1,1) *)
+Theorem C16_doc_error_codes_resize_refuted :
+  exists d prov vs pm codes,
+    doc_read d = DOk prov vs /\ d_matrices d = [pm] /\ pm_err pm = Some codes /\
+    length (pm_dists pm) = 4%nat /\ length codes = 9%nat /\ ci_len (d_locs d) = 2%nat /\ psize prov = 3%nat /\
+    nth_error (pm_times pm) (1 * 2 + 0) = Some 12 /\
+    duration_tt prov (doc_fallback d) 0 1%Q 1 0 (TDeparture 0) = Val 0%Q.
+Proof. exact doc_error_codes_resize_refuted. Qed.
+
+(* ---- clause 5: coordinate documents read without matrices (map_to_problem_with_approx), relative to an abstract
+        distance function hav on coordinate identifiers (haversine: libm trigonometry, not modelled).
+        qround = f64::round; it stays within 1/2 of its argument *)
+Theorem C16_round_within_half : forall x,
+  (inject_Z (qround x) - (1 # 2) <= x)%Q /\ (x <= inject_Z (qround x) + (1 # 2))%Q.
+Proof. exact qround_near. Qed.
+
+(* create_approx_matrices: one matrix per fleet profile, named after it, distances = round(hav) for all ordered pairs of
+   the unique locations, travel times = round(hav / speed of THAT profile) (default speed 10); the de-duplicated speed
+   set of the code does not matter *)
+Theorem C16_approx_matrices_structure : forall hav d,
+  create_approx_matrices hav d =
+  map (fun p => mkPM (Some (dp_name p)) None
+                     (flat_map (fun a => map (fun b => qround (hav a b / speed_of p)%Q) (approx_locs d)) (approx_locs d))
+                     (flat_map (fun a => map (fun b => qround (hav a b)) (approx_locs d)) (approx_locs d)) None)
+      (d_profiles d).
+Proof. exact create_approx_matrices_spec. Qed.
+
+(* every vehicle of an accepted coordinate document: duration(i,j) = round(hav(loc_i, loc_j) / speed of its profile) times its
+   scale, distance(i,j) = round(hav(loc_i, loc_j)); size() = number of unique coordinates *)
+Theorem C16_doc_approx_exact : forall hav d prov vs v p i j a b tt,
+  doc_read_approx hav d = DOk prov vs -> ci_has_indices (d_locs d) = false ->
+  In v (d_vehicles d) -> In p (d_profiles d) -> dp_name p = dv_profile v ->
+  nth_error (approx_locs d) i = Some a -> nth_error (approx_locs d) j = Some b ->
+  psize prov = length (approx_locs d) /\
+  exists k, vehicle_profile (prof_names d) (dv_profile v) (dv_scale v) = Some (k, dscale v) /\
+    duration_tt prov (doc_fallback d) k (dscale v) i j tt
+      = Val (inject_Z (qround (hav a b / speed_of p)) * dscale v)%Q /\
+    distance_tt prov (doc_fallback d) k i j tt = Val (inject_Z (qround (hav a b))).
+Proof. exact doc_approx_exact. Qed.
+
+(* symmetric with a zero diagonal, given only: hav symmetric and zero on equal points *)
+Theorem C16_doc_approx_symmetric_zero_diag : forall hav : nat -> nat -> Q,
+  (forall a b, (hav a b == hav b a)%Q) -> (forall a, (hav a a == 0)%Q) ->
+  forall d prov vs v p i j a b tt,
+    doc_read_approx hav d = DOk prov vs -> ci_has_indices (d_locs d) = false ->
+    In v (d_vehicles d) -> In p (d_profiles d) -> dp_name p = dv_profile v ->
+    nth_error (approx_locs d) i = Some a -> nth_error (approx_locs d) j = Some b ->
+    exists k, vehicle_profile (prof_names d) (dv_profile v) (dv_scale v) = Some (k, dscale v) /\
+      duration_tt prov (doc_fallback d) k (dscale v) i j tt = duration_tt prov (doc_fallback d) k (dscale v) j i tt /\
+      distance_tt prov (doc_fallback d) k i j tt = distance_tt prov (doc_fallback d) k j i tt /\
+      duration_tt prov (doc_fallback d) k (dscale v) i i tt = Val (inject_Z 0 * dscale v)%Q /\
+      distance_tt prov (doc_fallback d) k i i tt = Val (inject_Z 0).
+Proof. exact doc_approx_symmetric_zero_diag. Qed.
+
+(* FINDING C16-F6.  The hypothesis `hav a b == hav b a` is NOT met by the real haversine function: it evaluates
+   sin^2(dlng/2) * cos(lat1) * cos(lat2) left to right, so swapping the points re-associates a binary64 product and the
+   result can differ in the last bit.  When the distance lies at a rounding boundary the ROUNDED matrix is asymmetric:
+   with the two values the real function returns for the points of corpus C16/c16_doc/approx-asymmetric-last-bit.json
+   (they differ by 2^-31, one unit in the last place) cell (0,1) is 2270455 and cell (1,0) is 2270456 *)
+Theorem C16_approx_symmetric_last_bit_refuted :
+  exists (hav : nat -> nat -> Q) (a b : nat),
+    (forall x y, (0 <= hav x y)%Q) /\ (forall x, (hav x x == 0)%Q) /\
+    (hav b a - hav a b == 1 # 2147483648)%Q /\
+    nth_error (approx_distances hav qround [a; b]) (0 * 2 + 1) = Some 2270455 /\
+    nth_error (approx_distances hav qround [a; b]) (1 * 2 + 0) = Some 2270456.
+Proof. exact approx_symmetric_last_bit_refuted. Qed.
+
+(* ---- non-vacuity of the document-level hypotheses *)
+Theorem C16_nonvacuous_doc_named :
+  exists d prov vs v pm codes du di,
+    doc_consistent d /\ doc_read d = DOk prov vs /\ (forall m, In m (d_matrices d) -> pm_ts m = None) /\ names_known d /\
+    In v (d_vehicles d) /\ In pm (d_matrices d) /\ pm_profile pm = Some (dv_profile v) /\
+    pm_err pm = Some codes /\ pm_data2 pm = inr (du, di) /\ psize prov = 2%nat /\
+    nth_error codes (1 * psize prov + 0) = Some 3 /\
+    nth_error du (0 * psize prov + 1) = Some (31 # 1)%Q /\
+    duration_tt prov (doc_fallback d) 1 (dscale v) 0 1 (TArrival (7 # 2)) = Val ((31 # 1) * dscale v)%Q /\
+    duration_tt prov (doc_fallback d) 1 (dscale v) 1 0 (TDeparture 0) = Val ((-1 # 1) * dscale v)%Q.
+Proof. exact nonvacuous_doc_named. Qed.
+
+Theorem C16_nonvacuous_doc_timed :
+  exists d prov vs v l r tt,
+    doc_consistent d /\ doc_read d = DOk prov vs /\ names_known d /\ In v (d_vehicles d) /\
+    NoDup (map pm_key (filter (pnamed (dv_profile v)) (d_matrices d))) /\
+    In l (d_matrices d) /\ In r (d_matrices d) /\ pm_profile l = Some (dv_profile v) /\ pm_profile r = Some (dv_profile v) /\
+    pm_key l < ztrunc (tt_time tt) /\ ztrunc (tt_time tt) < pm_key r /\
+    (forall y, In y (d_matrices d) -> pm_profile y = Some (dv_profile v) -> ~ (pm_key l < pm_key y /\ pm_key y < pm_key r)) /\
+    exists q, duration_tt prov (doc_fallback d) 0 (dscale v) 1 0 tt = Val q /\ (q == 12 # 1)%Q.
+Proof. exact nonvacuous_doc_timed. Qed.
